@@ -440,6 +440,7 @@ class Engine(Conc, Executor, Calls):
             if o.sample is None and solver is not None:
                 o.sample = solver
         elif verdict == "failed":
+            self._last_model = model
             o.failed.append({"pos": pos, "model": model_to_dict(model), "solver": who,
                              "trace": [repr(e) for e in st.trace][-12:], "smt2": solver.to_smt2() if solver is not None else None})
         else:
@@ -874,7 +875,13 @@ class Engine(Conc, Executor, Calls):
                     o.instances += 1
                     o.unknown.append({"pos": out.info, "reason": "spec error: %s" % e})
                     continue
+                nf = len(o.failed)
                 self.record(o, s2, goal, out.info)
+                if len(o.failed) > nf and "pure" in decl.flags:
+                    try:
+                        self.attach_pure_replay(o.failed[-1], decl, fn, args, s2, c2, cl, out)
+                    except Exception:
+                        pass
                 if cl.ast[0] == "bin" and cl.ast[1] == "==>" and not o.covered:
                     try:
                         ante = to_bool(c2.eval(cl.ast[2]))
@@ -936,6 +943,36 @@ class Engine(Conc, Executor, Calls):
         info["secs"] = time.time() - t0
         self.cur = None
         return info
+
+    def attach_pure_replay(self, fail, decl, fn, args, st, ctx, cl, out):
+        """for a failed `ensures result == E` of a pure method on a struct with scalar fields: the receiver as a Go literal, the
+        value the real code is predicted to return (the model's result) and the value the contract demands (E under the model)"""
+        m = getattr(self, "_last_model", None)
+        a = cl.ast
+        if m is None or not (a[0] == "bin" and a[1] == "==" and a[2] == ("id", "result")) or len(fn["params"]) != 1 or not fn.get("recv"):
+            return
+        recv = args[0]
+        sv = st.load(recv) if isinstance(recv, PtrV) else recv
+        if not isinstance(sv, StructV):
+            return
+        rt = fn["params"][0]["type"]
+        T = self.ir.types[self.ir.under(rt)].get("elem") if isinstance(recv, PtrV) else rt
+        lits = []
+        for f in self.ir.fields(T):
+            v = sv.f.get(f["name"])
+            k = self.ir.kind(f["type"])
+            if is_z3(v) and v.sort() == z3.IntSort():
+                lits.append("%s: %s" % (f["name"], m.eval(v, model_completion=True)))
+            elif is_z3(v) and v.sort() == z3.BoolSort():
+                lits.append("%s: %s" % (f["name"], "true" if z3.is_true(m.eval(v, model_completion=True)) else "false"))
+            # other kinds (strings, nodes, pointers) keep their zero value: the replay is attempted only as far as scalars decide it
+        demanded = m.eval(to_bool(ctx.eval(a[3])) if fn["results"][0]["type"] == "bool" else to_int(ctx.eval(a[3])), model_completion=True)
+        got = out.results[0]
+        got = m.eval(to_bool(got) if fn["results"][0]["type"] == "bool" else to_int(got), model_completion=True)
+        fmt = lambda x: ("true" if z3.is_true(x) else "false") if z3.is_bool(x) else str(x)
+        fail["pure_replay"] = {"type": T, "ptr": isinstance(recv, PtrV), "method": fn["name"].rsplit(".", 1)[-1], "fields": lits,
+                               "demanded": fmt(demanded), "predicted": fmt(got), "rtype": fn["results"][0]["type"],
+                               "pkg": fn["pkg"], "file": fn.get("file")}
 
     def constructor_obligations(self, decl, fn, rets):
         """`constructor`: the returned object satisfies everything its type declaration lets every other function assume at entry:
